@@ -21,6 +21,7 @@ import (
 	"math/big"
 	"strconv"
 	"strings"
+	"sync"
 	"time"
 
 	iec "github.com/nspcc-dev/neofs-node/internal/ec"
@@ -44,7 +45,7 @@ import (
 )
 
 // MaxNodes is the size of the fixed node universe.
-const MaxNodes = 12
+const MaxNodes = 20
 
 var (
 	pubKeys [MaxNodes][]byte
@@ -79,13 +80,31 @@ func init() {
 	for i := range pubKeys {
 		nodesOnline[i], nodesMaint[i] = mkNode(i, false), mkNode(i, true)
 	}
-	engine.VerifPolicerWorldHook = func(_ *engine.StorageEngine, name string, _ []any) ([]any, bool) {
-		if name == "GetBytes" {
+	engine.VerifPolicerWorldHook = func(e *engine.StorageEngine, name string, args []any) ([]any, bool) {
+		switch name {
+		case "GetBytes":
 			return []any{bytes.Clone(ObjectBytes), nil}, true
+		case "Put": // only intercepted when a check's overlay hooks (*StorageEngine).Put as well
+			v, ok := engWorlds.Load(e)
+			if !ok {
+				return nil, false
+			}
+			w := v.(*World)
+			o := args[1].(*object.Object)
+			var err error = ErrGeneric
+			if w.LocalPut != nil {
+				err = w.LocalPut(o)
+			} else {
+				w.UnknownCalls = append(w.UnknownCalls, "replicator put to the local engine")
+			}
+			w.Sends = append(w.Sends, Send{o.GetID(), w.Local, err == nil})
+			return []any{err}, true
 		}
 		return nil, false
 	}
 }
+
+var engWorlds sync.Map // *engine.StorageEngine -> *World
 
 // Node returns the descriptor of universe node i (optionally flagged as under maintenance in the
 // network map).
@@ -155,8 +174,32 @@ type World struct {
 	PartHeads    int // HEAD-by-parent requests of checkECParts
 	UnknownCalls []string
 
+	// Optional EC hooks (C22 "callers" part). nil = the default world: every sibling part is healthy.
+	// PartHead answers a HEAD for part (rule, part) of the parent on node (remote node or the local one).
+	PartHead func(node, rule, part int) (object.Object, error)
+	// PartRange answers a remote payload request for part (rule, part) of the parent.
+	PartRange func(node, rule, part int) ([]byte, error)
+	// LocalRange / LocalHead answer the local storage reads of checkECParts.
+	LocalRange func(id oid.ID) ([]byte, error)
+	LocalHead  func(id oid.ID) (*object.Object, error)
+	// LocalPut answers the replicator's attempt to store an object on the local node (needs the engine
+	// Put hook in the overlay).
+	LocalPut func(o *object.Object) error
+	// AllowForeign: replicas of objects other than the checked one (recreated EC parts) are expected.
+	AllowForeign bool
+	// Sends lists, in order, every attempt to place a replica: remote sends and local puts.
+	Sends []Send
+
 	partHdr map[[2]int]object.Object
 	demux   map[io.ReadSeeker]demuxEntry
+	eng     *engine.StorageEngine
+}
+
+// Send is one attempt to place a replica of object ID on a node.
+type Send struct {
+	ID   oid.ID
+	Node int
+	OK   bool
 }
 
 // Task is one replication task as the policer handed it to the replicator.
@@ -196,15 +239,31 @@ func (s localStorage) Put(context.Context, *object.Object, []byte) error {
 	s.w.UnknownCalls = append(s.w.UnknownCalls, "Put")
 	return nil
 }
-func (s localStorage) Head(context.Context, oid.Address, bool) (*object.Object, error) {
+func (s localStorage) Head(_ context.Context, a oid.Address, _ bool) (*object.Object, error) {
+	if s.w.LocalHead != nil {
+		return s.w.LocalHead(a.Object())
+	}
 	s.w.UnknownCalls = append(s.w.UnknownCalls, "Head")
 	return nil, apistatus.ErrObjectNotFound
 }
 func (s localStorage) HeadECPart(_ context.Context, _ cid.ID, _ oid.ID, pi iec.PartInfo) (object.Object, error) {
 	s.w.PartHeads++
+	if s.w.PartHead != nil {
+		return s.w.PartHead(s.w.Local, pi.RuleIndex, pi.Index)
+	}
 	return s.w.partHeader(pi.RuleIndex, pi.Index), nil
 }
-func (s localStorage) GetRange(context.Context, oid.Address, uint64, uint64) ([]byte, error) {
+func (s localStorage) GetRange(_ context.Context, a oid.Address, off, ln uint64) ([]byte, error) {
+	if s.w.LocalRange != nil {
+		b, err := s.w.LocalRange(a.Object())
+		if err != nil {
+			return nil, err
+		}
+		if ln == 0 {
+			return b[off:], nil
+		}
+		return b[off : off+ln], nil
+	}
 	s.w.UnknownCalls = append(s.w.UnknownCalls, "GetRange")
 	return nil, apistatus.ErrObjectNotFound
 }
@@ -343,8 +402,18 @@ func CalibrateAgainstSDK() error {
 var ObjectBytes = []byte("verif-object-bytes")
 
 func (c fakeClient) ReplicateObject(_ context.Context, id oid.ID, src io.ReadSeeker, _ neofscrypto.Signer, _ bool) (*neofscrypto.Signature, error) {
-	if id != Obj {
+	if id != Obj && !c.w.AllowForeign {
 		c.w.UnknownCalls = append(c.w.UnknownCalls, "ReplicateObject "+id.String())
+	}
+	if id != Obj && c.w.AllowForeign {
+		// a recreated EC part: the source is the marshalled part object, consumed like the SDK does
+		if _, err := c.w.consumeLikeSDK(src); err != nil {
+			c.w.ReplPrepErrs = append(c.w.ReplPrepErrs, c.node)
+			return nil, err
+		}
+		err := c.w.Replicate(c.node)
+		c.w.Sends = append(c.w.Sends, Send{id, c.node, err == nil})
+		return nil, err
 	}
 	msg, err := c.w.consumeLikeSDK(src)
 	if err != nil {
@@ -357,8 +426,10 @@ func (c fakeClient) ReplicateObject(_ context.Context, id oid.ID, src io.ReadSee
 	}
 	c.w.ReplCalls = append(c.w.ReplCalls, c.node)
 	if err := c.w.Replicate(c.node); err != nil {
+		c.w.Sends = append(c.w.Sends, Send{id, c.node, false})
 		return nil, err
 	}
+	c.w.Sends = append(c.w.Sends, Send{id, c.node, true})
 	c.w.ReplOK = append(c.w.ReplOK, c.node)
 	return nil, nil
 }
@@ -398,6 +469,9 @@ func (x replRecorder) HandleTask(ctx context.Context, t replicator.Task, res rep
 	x.real.HandleTask(ctx, t, resRecorder{w: x.w, t: len(x.w.Tasks) - 1, next: res})
 }
 
+// KeyStorage returns a key storage holding the fixed harness key.
+func KeyStorage() *objutil.KeyStorage { return objutil.NewKeyStorage(key, nil, nil) }
+
 // farCtx is a never-cancelled context that reports a deadline in the year 2200. The policer and the
 // replicator wrap every remote call in context.WithTimeout(ctx, timeout); with timeouts of ~290 years
 // the parent deadline is the earlier one, so the standard library returns a plain cancel context and
@@ -427,6 +501,9 @@ func New() *World {
 				}
 				ri, _ := strconv.Atoi(xs[1])
 				pi, _ := strconv.Atoi(xs[3])
+				if w.PartHead != nil {
+					return w.PartHead(i, ri, pi)
+				}
 				return w.partHeader(ri, pi), nil
 			}
 			if a.Object() != Obj {
@@ -439,17 +516,33 @@ func New() *World {
 			w.HeadOK = append(w.HeadOK, i)
 			return object.Object{}, nil
 		},
-		Range: func(context.Context, netmap.NodeInfo, cid.ID, oid.ID, uint64, uint64, []string) (io.ReadCloser, error) {
+		Range: func(_ context.Context, n netmap.NodeInfo, _ cid.ID, id oid.ID, off, ln uint64, xs []string) (io.ReadCloser, error) {
+			if w.PartRange != nil && id == Parent && len(xs) == 4 {
+				ri, _ := strconv.Atoi(xs[1])
+				pi, _ := strconv.Atoi(xs[3])
+				b, err := w.PartRange(NodeIndex(n), ri, pi)
+				if err != nil {
+					return nil, err
+				}
+				if ln == 0 {
+					b = b[off:]
+				} else {
+					b = b[off : off+ln]
+				}
+				return io.NopCloser(bytes.NewReader(b)), nil
+			}
 			w.UnknownCalls = append(w.UnknownCalls, "remote GetRange")
 			return nil, ErrGeneric
 		},
 	}
 	net := network{w}
+	w.eng = new(engine.StorageEngine)
+	engWorlds.Store(w.eng, w)
 	rs := putsvc.NewRemoteSender(objutil.NewKeyStorage(key, nil, nil), clients{w})
 	rp := replicator.New(
 		replicator.WithLogger(zap.NewNop()),
 		replicator.WithRemoteSender(rs),
-		replicator.WithLocalStorage(new(engine.StorageEngine)),
+		replicator.WithLocalStorage(w.eng),
 		replicator.WithLocalNodeKey(net),
 		replicator.WithPutTimeout(farTimeout),
 	)
@@ -463,6 +556,7 @@ func (w *World) Reset() {
 	w.Tasks, w.Deletes, w.ShardTrims, w.UnknownCalls = nil, nil, nil, nil
 	w.PartHeads = 0
 	w.ReplPrepErrs = w.ReplPrepErrs[:0]
+	w.Sends = w.Sends[:0]
 	w.demux = nil
 }
 
